@@ -723,7 +723,11 @@ func (e *Engine) typeAssert(s *State, iv IfaceV, x *ssa.TypeAssert) Val {
 		ok = not(iv.IsNil) // the value arrived through an interface type that includes the asserted one
 		val = iv
 	case toIface: // unknown dynamic type asserted to another interface: undecided, result keeps the identity
-		okc := e.declare(s, "assertok", "Bool")
+		// whether the dynamic type implements the asserted interface is a fact about the dynamic value, the same
+		// every time it is asked (in the code and in a contract clause alike): an uninterpreted predicate of its identity
+		uf := "impl_" + sanitize(at.String())
+		s.defs = append(s.defs, fmt.Sprintf("(declare-fun %s (Ref) Bool)", uf))
+		okc := e.name(s, app(uf, "Bool", e.ifaceRef(iv)))
 		ok = and(not(iv.IsNil), okc)
 		val = iv
 	default:
